@@ -2,7 +2,7 @@
 data/proplogic.py, logic/logic.py (and logic/auto.py for the proof-producing real normaliser) on real terms.
 
 modes
-  all   <dump> <vectors.ndjson> <out.ndjson> <jobs> <arith_mod> <int_mod> <comb_mod> <nrand> <seed>
+  all   <dump> <vectors.ndjson> <out.ndjson> <jobs> <arith_mod> <int_mod> <comb_mod> <nrand> <seed> <cap>
         the three parts below in one process (the theories are loaded once, then <jobs> children are forked); events carry
         src = "replay" | "comb" | "rand"
   part "replay":
@@ -10,7 +10,8 @@ modes
         (mode, ty, cls) are one orbit.  Every member e is decoded to a real term (a "ring" orbit at int AND at real) and every
         normaliser of its kind is run on it: one "norm" event per (member, normaliser), one "orbit" event per (orbit, normaliser)
         carrying all (x, rhs).  arith_mod / int_mod: replay only the arithmetic (resp. integer) orbits whose class digest is
-        0 modulo it (sampling, seeded; TLC explores all of them in any case).
+        0 modulo it; cap: at most that many members of one orbit (the smallest and a seeded sample).  TLC explores everything
+        in any case.
   part "comb":   (terms whose digest is 0 modulo comb_mod, and all terms the specification marks `must`)
         every term of spec/C10_Terms.tla (twice: binders named "x", clashing with the free variable x, and binders with fresh
         names) x every traversal / rewriting combinator of CONVS: one "comb" event each.
@@ -247,7 +248,7 @@ def has_op(a, ops):
     return a[0] in ops or any(has_op(b, ops) for b in a[1:] if isinstance(b, list))
 
 
-def norm_items(dump_path, arith_mod, int_mod, seed):
+def norm_items(dump_path, arith_mod, int_mod, seed, cap):
     states = parse_dump(dump_path)
     orbits = {}
     for s in states:
@@ -256,6 +257,10 @@ def norm_items(dump_path, arith_mod, int_mod, seed):
     for (mode, ty, cls), es in sorted(orbits.items(), key=lambda kv: (kv[0][0], kv[0][1], digest(kv[0][2]))):
         okey = digest([mode, ty, cls])
         es = sorted(es, key=lambda e: json.dumps(e))
+        if len(es) > cap:
+            # a huge class (e.g. everything equal to 0): the 5 smallest members and a seeded sample of the others
+            es = sorted(es, key=lambda e: (len(json.dumps(e)), json.dumps(e)))
+            es = es[:5] + random.Random("%s/%s" % (seed, okey)).sample(es[5:], cap - 5)
         if mode == "arith":
             # orbits with subtraction (ring or truncated) only come from the hand-picked seeds: always replayed
             must = any(has_op(e, ("-", "neg", "o")) for e in es)
@@ -341,7 +346,7 @@ def comb_events(tj, route, cs, emit, only=None):
         xj = enc(t)
         # a refusal by the conversion's own error carries no term (nothing is judged on it; the key identifies the input)
         ev = {"kind": "comb", "cv": name, "route": route, "ty": "bool", "mode": "comb", "x": xj if r["pt"]["o"] != "conv" else ["none"],
-              "ax": ["none"], "conds": [enc(c.prop) for c in conds] if r["pt"]["o"] != "conv" else [],
+              "ax": ["none"], "conds": [enc(h) for c in conds for h in c.hyps] if r["pt"]["o"] != "conv" else [],
               "key": "comb:%s:%s:%s" % (name, route, digest(xj))}
         ev.update(r)
         emit(ev)
@@ -460,8 +465,8 @@ def cost(it):
     return len(it[5]) * {"int": 8, "nat": 3, "real": 3}.get(it[3], 3)
 
 
-def run_all(dump_path, vec_path, out_path, jobs, arith_mod, int_mod, comb_mod, nrand, seed):
-    items = norm_items(dump_path, arith_mod, int_mod, seed) + comb_items(vec_path, comb_mod, seed) + rand_items(nrand, seed)
+def run_all(dump_path, vec_path, out_path, jobs, arith_mod, int_mod, comb_mod, nrand, seed, cap):
+    items = norm_items(dump_path, arith_mod, int_mod, seed, cap) + comb_items(vec_path, comb_mod, seed) + rand_items(nrand, seed)
     # most expensive first, so that the round-robin split over the children is balanced
     items.sort(key=lambda it: -cost(it))
 
@@ -523,7 +528,7 @@ def dec_keep(j):
 if __name__ == "__main__":
     mode = sys.argv[1]
     if mode == "all":
-        run_all(sys.argv[2], sys.argv[3], sys.argv[4], *[int(a) for a in sys.argv[5:11]])
+        run_all(sys.argv[2], sys.argv[3], sys.argv[4], *[int(a) for a in sys.argv[5:12]])
     elif mode == "event":
         event(sys.argv[2], sys.argv[3])
     else:
